@@ -87,6 +87,10 @@ def _ops():
     ops["split_data"] = lambda c, s: U.split_data(c.data, [0.5, 0.25, 0.25], random_state=s)
     ops["add_edges"] = lambda c, s: U.add_edges(c.dag, 3, random_state=s)
     ops["remove_edges"] = lambda c, s: U.remove_edges(c.dag, 1, random_state=s)
+    # the documented default seed: calls that do not pass random_state at all must be just as repeatable (observed once, as "seed" 42)
+    ops["split_data(default seed)"] = lambda c, s: U.split_data(c.data, [0.5, 0.25, 0.25]) if s == 42 else None
+    ops["add_edges(default seed)"] = lambda c, s: U.add_edges(c.dag, 3) if s == 42 else None
+    ops["remove_edges(default seed)"] = lambda c, s: U.remove_edges(c.dag, 1) if s == 42 else None
     return ops
 
 
@@ -127,7 +131,8 @@ def observed_ops(seed):
 
 def history_alphabet():
     """Operations used to build histories: every seeded op with seeds {0, 12345} and every perturbation."""
-    alpha = [("S", name, s) for name in SEEDED for s in (0, 12345)]
+    alpha = [("S", name, s) for name in SEEDED for s in (0, 12345) if "default seed" not in name]
+    alpha += [("S", name, 42) for name in SEEDED if "default seed" in name]
     alpha += [("P", name, None) for name in PERTURB]
     return alpha
 
